@@ -477,6 +477,24 @@ pub fn run(run: &Run) {
         }
         run.nontrivial(1);
     });
+    // 2b. arguments on which a re-implemented map typically slips: ties and near-ties of the rounding
+    // maps, odd integers next to 2^52 / 2^53, overflow / underflow thresholds of exp, domain ends,
+    // subnormals — at every position of every length 1..=17 (block and remainder positions)
+    let edge: Vec<f64> = vec![
+        0.5, -0.5, 0.49999999999999994, -0.49999999999999994, 0.5000000000000001, 1.5, -1.5, 2.5, -2.5, 3.5,
+        4503599627370495.5, 4503599627370496.0, 4503599627370497.0, -4503599627370497.0, 9007199254740991.0, -9007199254740991.0, 9007199254740992.0, 9007199254740993.0,
+        709.782712893384, 709.7827128933841, 710.0, -745.1332191019411, -745.1332191019412, -708.3964185322641, 1024.0, 1023.9999999999999, -1074.0, -1075.0,
+        1.0, -1.0, 0.9999999999999999, 1.0000000000000002, -0.9999999999999999, 2.2250738585072014e-308, 1e-310, -1e-310, 1e-320,
+        std::f64::consts::FRAC_PI_2, std::f64::consts::PI, 1e22, -1e22, 1e300, 1e-300, 3.0e-9, -3.0e-9, 0.1, 1e15 + 0.5, 2.0f64.powi(31) + 0.5,
+    ];
+    run.bound("edge arguments", format!("{} rounding / threshold arguments at every position of lengths 1..=17, all maps", edge.len()));
+    (1..=17usize).into_par_iter().for_each(|n| {
+        for start in 0..edge.len() {
+            let x: Vec<f64> = (0..n).map(|i| edge[(start + i * 7) % edge.len()]).collect();
+            unary(run, &maps, &x, "edge", n == 8 || n == 9 || n == 17);
+            run.nontrivial(1);
+        }
+    });
     run.sample(|| format!("inject-left n=9 i=8 special=NaN: x={:?}", {
         let mut x = xs(9);
         x[8] = f64::NAN;
